@@ -58,11 +58,11 @@ class Ctx:
         node, owner, mod = self.w.function(qual)
         self.res.functions[qual] = self.w.fhash(node)
 
-    def run(self, x, qual, args, kwargs, st, closure=None):
+    def run(self, x, qual, args, kwargs, st, closure=None, split_returns=False):
         self.under_contract(qual)
         t0 = time.time()
         x.assume = self.assumes
-        exits = x.run(qual, args, kwargs, st, closure=closure)
+        exits = x.run(qual, args, kwargs, st, closure=closure, split_returns=split_returns)
         self.res.exec_seconds += time.time() - t0
         self.res.inlined = sorted(set(self.res.inlined) | x.inlined)
         for q in x.inlined:
